@@ -948,15 +948,27 @@ func (fx *FuncExec) execInstr(st *State, in ssa.Instruction) {
 		fx.note("A4: goroutine started with `go` is not interleaved; only lock-protected state is assumed to change concurrently")
 		fx.execGo(st, x)
 	case *ssa.Defer:
-		st.defers = append(st.defers, x)
+		st.defers = append(st.defers, deferRec{d: x, cond: "true"})
 	case *ssa.RunDefers:
-		for i := len(st.defers) - 1; i >= 0; i-- {
-			d := st.defers[i]
-			fx.curInstr = d
-			fx.execCall(st, d, d.Common(), true)
+		ds := st.defers
+		st.defers = nil
+		for i := len(ds) - 1; i >= 0; i-- {
+			d := ds[i]
+			fx.curInstr = d.d
+			if d.cond == "true" {
+				fx.execCall(st, d.d, d.d.Common(), true)
+				continue
+			}
+			// registered on some paths only: run it on a copy under that condition and merge
+			with := st.Clone()
+			with.pc = and(st.pc, d.cond)
+			fx.execCall(with, d.d, d.d.Common(), true)
+			without := st.Clone()
+			without.pc = and(st.pc, not(d.cond))
+			m := fx.Merge([]incoming{{st: with, cond: with.pc}, {st: without, cond: without.pc}}, "defer")
+			*st = *m
 		}
 		fx.curInstr = in
-		st.defers = nil
 	case *ssa.Range:
 		fx.vals[x] = fx.val(st, x.X)
 	case *ssa.Next:
